@@ -316,6 +316,7 @@ def register3(E):
     def _(e, c, a):
         """default methods of PartialOrd/Ord on a crate type: go through the type's own partial_cmp/cmp (MIR)"""
         x = deref(a[0]); ty = getattr(x, 'ty', None); op = c.rsplit('::', 1)[1]
+        if ty == 'tracing': return False              # tracing is modelled as disabled
         if ty is None: raise EngineError('ordering of ' + repr(x))
         if op in ('max', 'min'):
             f = e._find_impl('cmp', 'Ord', ty, 2)
